@@ -94,6 +94,9 @@ def gen_tables(ctx, max_paths=3000, max_size=1500, same_names_as=None):
                 mod = r.choice([("PHSP", []), ("VSS", []), ("HELAMP", ["1.0", "0.0", "-1.0", "0.5"]), ("SVS", []), ("VSS_BMIX", ["0.5"])])
                 lines.append({"bf": r.choice(["1.0", "0.5", ".25", "2E-3", "0.125", "0.0314", "0.3333", "0", "0.0000", "0e0", "-0.1"]), "fs": fs, "photos": r.random() < 0.25,
                               "model": mod[0], "params": list(mod[1])})
+                if fs and r.random() < 0.12:
+                    # the same final state listed a second time, with its own branching fraction and model (as the master files do for B0, B+, B_s0)
+                    lines.append({"bf": r.choice(["0.011", "0.25", "7e-4"]), "fs": list(fs), "photos": False, "model": "PHSP" if mod[0] != "PHSP" else "SVS", "params": []})
             blocks.append({"k": "Decay", "m": m, "lines": lines})
         r.shuffle(blocks)
         # conjugated tables (CDecay) are decay tables like any other: their lines are clones of the source's lines with other names
